@@ -947,5 +947,32 @@ Definition m_ex : module :=
       size_virt [(ktrue, kz 0, kz 4); (ktrue, kz 4, kz 4)]]
      [0; 1; 2]%nat 2%nat None].
 
-Eval vm_compute in run_view m_ex 0 [] [1; 2] 8.
-Eval vm_compute in run_view m_ex 0 [] [1; 2; 3; 4; 5; 6; 165] 8.
+Example wf_stable_example : wf_stable m_ex = true.
+Proof. reflexivity. Qed.
+
+Definition d_ex : sdef := nth 0 m_ex (mk_sdef 8 0 [] [] 0 None).
+
+(* On the 2-byte prefix: tag is Ok (= 1), has_x is Known(true) but x is not yet Ok, v = 2 and the
+   size (7) are known, the view is neither complete nor Ok; with 5 more bytes everything is Ok
+   and the values known before are unchanged. *)
+Example wf_stable_example_nonvacuous :
+  let r := eval_struct m_ex [1; 2] 8 d_ex [] true (root [1; 2]) in
+  let r' := eval_struct m_ex ([1; 2] ++ [3; 4; 5; 6; 165]) 8 d_ex [] true (root ([1; 2] ++ [3; 4; 5; 6; 165])) in
+  fle r r' /\
+  (exists tag x v, nth_error (fr_sub r) 0 = Some (Some tag) /\ nth_error (fr_sub r) 1 = Some (Some x) /\
+                   nth_error (fr_sub r) 5 = Some (Some v) /\
+                   fr_ok tag = true /\ fr_val tag = Some (VInt 1) /\
+                   fr_has x = Some true /\ fr_ok x = false /\
+                   fr_ok v = true /\ fr_val v = Some (VInt 2)) /\
+  fr_ssize r = Some 7 /\ fr_scomplete r = false /\ fr_ok r = false /\
+  (exists x' lo', nth_error (fr_sub r') 1 = Some (Some x') /\ nth_error (fr_sub r') 6 = Some (Some lo') /\
+                  fr_ok x' = true /\ fr_val x' = Some (VInt 515) /\
+                  fr_ok lo' = true /\ fr_val lo' = Some (VInt 5)) /\
+  fr_ok r' = true.
+Proof.
+  split.
+  - apply (prefix_stable_partial m_ex wf_stable_example d_ex [] 8%nat [1; 2] [3; 4; 5; 6; 165]).
+    left; reflexivity.
+  - vm_compute. split; [do 3 eexists; repeat split; reflexivity|].
+    repeat split; try reflexivity. do 2 eexists; repeat split; reflexivity.
+Qed.
